@@ -6,7 +6,9 @@ I => A (invariants Refines, TypeOK/Cursors, NoThrow/AShape, deadlock = every beh
 exports every case with the log the spec computed.  Binding: harness/dispatch_replay.cpp runs every case
 on the real osmium::apply / apply_diff / DiffIterator with real handler objects (static handlers with
 const / non-const / both overloads, DynamicHandler, closures, ChainHandler) and compares the complete log
-of callback invocations."""
+of callback invocations.
+Extension (checks/C20ext.py, specs/TagRules.tla, harness/tagrules_replay.cpp): the rule-list filters over tags
+(tags::Filter family, TagsFilter, TagMatcher, StringMatcher, filter iterator, match_*_of); signatures "ext:..."."""
 import json
 import os
 import random
@@ -217,6 +219,8 @@ def sensitivity_guard(ctx, bins, cases):
 
 
 def run(ctx):
+    import C20ext                   # rule-list filters (specs/TagRules.tla); its harness builds beside the work below
+    C20ext.start_prebuild(ctx)
     with ThreadPoolExecutor(max_workers=parallel_jobs(ctx.tier)) as pool:
         fb = pool.submit(build_all, ctx.tier != "quick")
         cases = gen_cases(ctx, pool)
@@ -272,11 +276,15 @@ def run(ctx):
         "instantiated at compile time); item identity = address of the item in the buffer (type,id,version for the real Reader)",
         "Reader cases are limited to what a file can deliver (node, way, relation, changeset; OPL, in memory)",
     ]
+    C20ext.run_part(ctx)            # adds to ctx.traces / evaluations / nontrivial / rule / assumptions / extra
 
 
 def replay(ctx, path):
     with open(path) as fh:
         d = json.load(fh)
+    if str(d.get("signature", "")).startswith("ext:"):
+        import C20ext
+        return C20ext.replay_part(ctx, d)
     c = d["case"]["case"]
     bins = [None, None]
     bins[part_of(c)] = vlib.build(**builds()[part_of(c)])       # only the binary this case needs
